@@ -55,16 +55,16 @@ def redress(rng, d, hide):
             r.set_style(SP.Extent, s.ExtentType(height=docgen.rlen(rng, [U.pct, U.pct, U.px, U.c, U.rh]), width=docgen.rlen(rng, [U.pct, U.px, U.c, U.rw])))
         if rng.random() < 0.25:      # around the 50 % line that decides displayAlign
             r.set_style(SP.Origin, s.CoordinateType(x=L(F(rng.randint(38, 62)), U.pct), y=L(F(rng.randint(38, 62)), rng.choice([U.pct, U.rh]))))
-        if r.get_style(SP.Position) is not None and rng.random() < 0.7: r.set_style(SP.Position, None)
-        if r.get_style(SP.Position) is None and rng.random() < 0.10: r.set_style(SP.Position, docgen.rvalue(rng, SP.Position))
-        if r.get_style(SP.Position) is not None and rng.random() < 0.6:
+        if r.get_style(SP.Position) is not None and rng.random() < 0.8: r.set_style(SP.Position, None)
+        if r.get_style(SP.Position) is None and rng.random() < 0.07: r.set_style(SP.Position, docgen.rvalue(rng, SP.Position))
+        if r.get_style(SP.Position) is not None and rng.random() < 0.7:
             r.set_style(SP.Extent, s.ExtentType(height=docgen.rlen(rng, [U.rh]), width=docgen.rlen(rng, [U.rw])))
         if rng.random() < 0.35: r.set_style(SP.WritingMode, rng.choice(list(s.WritingModeType)))
         if rng.random() < 0.5: r.set_style(SP.DisplayAlign, rng.choice(list(s.DisplayAlignType)))
         if rng.random() < 0.2: r.set_style(SP.TextAlign, rng.choice(list(s.TextAlignType)))
-        if rng.random() < 0.6:
+        if rng.random() < 0.7:
             r.set_begin(rng.choice([None, None, F(0), F(1), F(2)]))
-            r.set_end(rng.choice([None, None, None, F(10), F(12), F(0)] if rng.random() < 0.15 else [None, None, F(10), F(12)]))
+            r.set_end(rng.choice([None, None, F(0), F(0), F(10)] if rng.random() < 0.12 else [None, None, F(10), F(12)]))
     if rng.random() < 0.15: d.put_initial_value(SP.WritingMode, rng.choice(list(s.WritingModeType)))
     if rng.random() < 0.15: d.put_initial_value(SP.DisplayAlign, rng.choice(list(s.DisplayAlignType)))
     if rng.random() < 0.10: d.put_initial_value(SP.Origin, docgen.rvalue(rng, SP.Origin))
@@ -264,6 +264,7 @@ def main():
     proofs_ok = ok and run.theorems()
     if not ok: run.proof_log = log[-2500:]
     run.witnesses()
+    run.log(f"built; theorems ok = {proofs_ok}")
     logging.disable(logging.CRITICAL)
 
     # recorded findings: their fixed witnesses must still fail, otherwise the entry is stale
@@ -297,6 +298,7 @@ def main():
         grouped.append((cs[0][0][0], "\n".join(c[1] for c in cs), [" ++ ".join(f"({c[2][s]})" for c in cs) for s in range(len(cs[0][2]))],
                         [sum(c[3][s] for c in cs) for s in range(len(cs[0][2]))]))
     files = isdcore.write_shards("Cases_C16_", HEADER, grouped)
+    run.log(f"implementation run on {len(info)} cases; {len(files)} case files")
     bad, broken = isdcore.eval_shards(files, timeout=2400)
     C.clean_cases("Cases_C16_")
 
